@@ -45,8 +45,9 @@ RULE = ("unit single: full product start state x event (first level of the searc
         "Events that the library refuses (exceptions) are counted in the notes and not expanded; states whose mask "
         "is not a Boolean array are reported and not expanded. An execution is non-trivial when at least one transition was checked.")
 ASSUMPTIONS = [
-    "scope: 1-3-dimensional meshes with <= 12 cells and one subregion, 1-3 components, float and complex data, coded "
-    "masks (fixed, asymmetric), programs of <= 2 (quick) / 3 (thorough) events from ~55 events",
+    "scope: 6 (quick) / 8 (thorough) start fields on 1-3-dimensional meshes with <= 12 cells and one subregion (one "
+    "periodic, one with custom labels and a permuted mapping), 1-3 components, float and complex data, coded masks "
+    "(fixed, asymmetric), programs of <= 2 (quick) / 3 (thorough) events out of 72 (55-72 enabled per start state)",
     "cell-mapping events (sel, [subregion], [Region], pad, resample, rotate90, HDF5, VTK) use the library's own data "
     "path as the reference for where cells go (C07/C12/C10/C16 decide whether that path is right)",
     "constant-mode padding: only the original cells are compared (whether a new cell filled with a constant is valid "
@@ -95,12 +96,12 @@ STARTS_Q = [
     ("3d-232-v3", (0.0, -1.0, 5.0), (1.0, 0.5, 2.0), (2, 3, 2), 3, False),
     ("3d-221-s-cplx", (0.0, -1.0, 5.0), (1.0, 0.5, 2.0), (2, 2, 1), 1, True),
     ("1d-4-s", (0.5,), (0.25,), (4,), 1, False),
+    ("3d-213-v3-custom-perm", (0.0, 0.0, 0.0), (5e-9, 5e-9, 3e-9), (2, 1, 3), 3, False),
+    ("2d-41-s-periodic", (-2.0, 0.0), (1.0, 1.0), (4, 1), 1, False),
 ]
 STARTS_T = STARTS_Q + [
     ("2d-23-v3", (0.0, -1.0), (2e-9, 1e-9), (2, 3), 3, False),
     ("3d-322-v3-cplx", (0.3, 0.0, -2.0), (0.5, 0.5, 0.25), (3, 2, 2), 3, True),
-    ("3d-213-v3-custom-perm", (0.0, 0.0, 0.0), (5e-9, 5e-9, 3e-9), (2, 1, 3), 3, False),
-    ("2d-41-s-periodic", (-2.0, 0.0), (1.0, 1.0), (4, 1), 1, False),
 ]
 STARTDEF = {s[0]: s for s in STARTS_T}
 # extras: custom labels with a cyclically permuted mapping; periodic boundary conditions
